@@ -501,6 +501,16 @@ def c03_r9(ctx):
                 grew = True
     maps = set(nm_ for nm_ in derived if any(v is not None and ".segment()" in norm.canon(v) and isinstance(v, (ast.Call, ast.DictComp, ast.Dict))
                                               for v in asg.get(nm_, [])))
+    # ... or filled entry by entry: `M[r.segment()] = r` with r taken from something derived from `reuse`
+    loopvars = set()
+    for lp in ast.walk(f.node):
+        if isinstance(lp, (ast.For, ast.comprehension)) and (norm.names_in(lp.iter) & derived):
+            loopvars |= norm.names_in(lp.target)
+    for st in ast.walk(f.node):
+        if isinstance(st, ast.Assign) and len(st.targets) == 1 and isinstance(st.targets[0], ast.Subscript) \
+                and isinstance(st.targets[0].value, ast.Name) and ".segment()" in norm.canon(st.targets[0].slice) \
+                and ((norm.names_in(st.value) | norm.names_in(st.targets[0].slice)) & (derived | loopvars)):
+            maps.add(st.targets[0].value.id)
     if not maps:
         raise AnalysisError("FileIndex._reader: the map of re-usable readers was not found")
     # the closure (or loop) that picks a reader for a segment
